@@ -344,6 +344,22 @@ def r4(ctx, R):
     ca = q.calls(rd, name="clear_attr_referrers")
     if not ca or [norm(a) for a in ca[0].args] != ["self.fresh[name]"]:
         R.bad(rd, rd.node, "deleting a reference does not clear its attribute readers", stmt="clear_attr_referrers")
+    rr_ = ctx.func("ReferenceGraph.remove_with_referred")
+    R.inst("remove_with_referred: a reference node leaves the graph only when no reader is left")
+    rms = q.calls(rr_, name="remove_node", recv="self")
+    okr = bool(rms)
+    for c in rms:
+        g = q.guards_of(rr_, c)
+        if not any(t in ("self.degree(n) == 0", "self.out_degree(n) == 0", "not self.degree(n)", "not self.out_degree(n)")
+                   or (t in ("self.degree(n)", "self.out_degree(n)") and l == "F") for t, l in g):
+            okr = False
+    if not okr:
+        R.bad(rr_, rms[0] if rms else rr_.node, "a reference that still has readers is dropped from the reference graph "
+                                                 "when one of its readers is cleared: the remaining readers are not "
+                                                 "invalidated when the reference changes", stmt="remove_node(ref) guard")
+    rn = q.calls(rr_, name="remove_nodes_from", recv="self")
+    if not rn or [norm(a) for a in rn[0].args] != ["nodes"]:
+        R.bad(rr_, rr_.node, "cleared readers stay in the reference graph", stmt="remove_nodes_from(nodes)")
     tm = ctx.func("TraceManager.clear_attr_referrers")
     R.inst("clear_attr_referrers removes the reference from refgraph with its readers (see C06.R4)")
     if not [c for c in q.calls(tm, name="remove_with_descs") if (call_recv(c) or "").endswith("refgraph")]:
